@@ -12,7 +12,7 @@ package common
 //@   requires bits >= 0
 //@   assigns  nothing
 //@   ensures  (result == nil) == (bits == 0)
-//@   ensures  result != nil ==> wfBA(result) && result.Bits == bits && fresh(result)
+//@   ensures  result != nil ==> wfBA(result) && result.Bits == bits && fresh(result) && fresh(result.Elems)
 
 //@ func (*BitArray).Size
 //@   props C08
